@@ -2,6 +2,7 @@
 //!
 //! Every call into the library runs under `guard::guard` (catch_unwind + allocation accounting);
 //! a returned `Err` / `None` is always fine. Documented panic conditions are never generated.
+use crate::refimpl::Variant as _;
 use std::collections::HashMap;
 use std::str::FromStr;
 
@@ -778,13 +779,13 @@ fn op_blind(t: &mut Tape, ctx: &mut Ctx) -> R {
         }
         1 => {
             // zero value on a marked output
-            if let Some(o) = tx.output.iter_mut().find(|o| o.nonce.is_confidential()) {
+            if let Some(o) = tx.output.iter_mut().find(|o| o.nonce.v_conf()) {
                 o.value = Value::Explicit(0);
             }
         }
         2 => {
             // a marked output on a script that is no address
-            if let Some(o) = tx.output.iter_mut().find(|o| o.nonce.is_confidential()) {
+            if let Some(o) = tx.output.iter_mut().find(|o| o.nonce.v_conf()) {
                 o.script_pubkey = gen::gen_script(t, false);
             }
         }
@@ -821,7 +822,7 @@ fn op_blind(t: &mut Tape, ctx: &mut Ctx) -> R {
     }
     let mut rng = ChaCha20Rng::from_seed(case.rng_seed);
     let blind_iss = t.bool();
-    let marked = tx.output.iter().filter(|o| !o.is_fee() && o.nonce.is_confidential()).count();
+    let marked = tx.output.iter().filter(|o| !o.is_fee() && o.nonce.v_conf()).count();
     let r = guard::guard("Transaction::blind", 0, || tx.blind(&mut rng, secp(), &secrets, blind_iss).is_ok());
     ctx.eval();
     match r {
@@ -1844,7 +1845,7 @@ fn blind_perturbed(t: &mut Tape, ctx: &mut Ctx) -> R {
     }
     if k == 0 && seq <= 1 && !c.marked.is_empty() && !all_ok && ctx.wants_sample("blind-case:consistent:refused") {
         let outs: Vec<String> = c.pset.outputs().iter().map(|o| format!("{:?}/{:?}/key={}/idx={:?}", o.amount, o.asset, o.blinding_key.is_some(), o.blinder_index)).collect();
-        let ins: Vec<String> = c.pset.inputs().iter().map(|i| format!("conf={} iss={:?}", i.witness_utxo.as_ref().map_or(false, |u| u.value.is_confidential()), i.issuance_value_amount)).collect();
+        let ins: Vec<String> = c.pset.inputs().iter().map(|i| format!("conf={} iss={:?}", i.witness_utxo.as_ref().map_or(false, |u| u.value.v_conf()), i.issuance_value_amount)).collect();
         ctx.sample("blind-case:consistent:refused", || json!({"steps": format!("{:?}", steps), "outcomes": outcomes, "marked": c.marked, "ins": ins, "outs": outs}));
     }
     if ctx.wants_sample("blind-case") && !all_ok {
